@@ -836,7 +836,7 @@ const LITS: [&str; 12] = ["a", "b", "x y", "", "h\u{e9}llo \u{6f22}", "0", "fals
 /// an operation history), they must be stored and compared verbatim
 const ODD_LITS: [&str; 13] = ["x#y", "#", "say \"hi there\"", "a\nb", "ab", "tab\there", "007", "+5", "-0", "1.50", "1e3", "0x10", " 7"];
 const FAKES: [&str; 4] = ["handle:zzzzzzzzzzzzzzzzzzzz", "nohandle", "", "handle:"];
-const IDX: [&str; 11] = ["0", "1", "2", "5", "-1", "abc", "", "1.0", "16", "17", "39"];
+const IDX: [&str; 18] = ["0", "1", "2", "5", "-1", "abc", "", "1.0", "16", "17", "39", "-0", "+1", "00", " 1", "18446744073709551615", "9223372036854775808", "18446744073709551616"];
 
 fn gen_v(rng: &mut Rng, n_slots: usize) -> V {
     if rng.chance(1, 60) {
